@@ -28,6 +28,7 @@ ASSUMPTIONS = [
     "tolerances from the statement: 0.1 px (ZNCC, NCC, PCC unmasked), 0.5 px (FSC, or soft mask)",
     "displacements on a finite lattice that contains the range boundary, its corners and off-grid interior points",
     "wide-range family: max_shifts = box//2 + 1 on (12,12,12) and (10,12,11) with |d| <= 3, so that the periodic image of the displaced copy is outside the range",
+    "added during the seeding waves: ranges wider than half the box, ranges that are zero on some axes, intensity scale, the fractional range 1.95 on an 11^3 box in the quick tier",
 ]
 
 MODELS = ["ZNCC", "NCC", "PCC", "FSC"]
